@@ -10,7 +10,7 @@
    are re-applied on load (runtime_reapplied). *)
 From Coq Require Import String List Ascii Bool Arith.
 From LV Require Import Cache.Bytes Cache.PyRepr Gen.CacheKey Cache.Cache Cache.PyRepr_proofs Cache.Cache_proofs
-  Cache.CacheInstance.
+  Cache.CacheInstance Cache.CutPickle_proofs.
 Import ListNotations.
 
 Section Statements.
@@ -124,6 +124,19 @@ Print Assumptions C12_read_after_write.
 Print Assumptions C12_construct_spec.
 Print Assumptions C12_history_inv.
 
+(* A cut pickle under a header recomputed for it (the digests agree): unpickling a strict prefix fails and the
+   failure is a Miss - independent of any property of the digest.  This is what `except Exception` is for. *)
+Theorem C12_cut_pickle_miss :
+  forall (R : Type) (sha : bytes -> bytes) (D P : Type) (encU : ufiles -> bytes)
+         (decU : bytes -> option (ufiles * bytes)) (encD : D -> bytes) (decD : bytes -> option (D * bytes))
+         (load : D -> cfg R -> option P),
+    (forall a, ~ In nl (sha a)) -> (forall u r, decU (encU u ++ r) = Some (u, r)) ->
+    prefix_fails encU decU -> prefix_fails encD decD ->
+    forall k u d n c e, n < length (encU u ++ encD d) ->
+      read R sha D P decU decD load (mk_file sha k (firstn n (encU u ++ encD d))) c e = Miss.
+Proof. exact cut_pickle_miss. Qed.
+Print Assumptions C12_cut_pickle_miss.
+
 (* The framing used before the repair of F3 (plain concatenation of grammar, k+str(v), version) is not
    injective: the witness of F3. *)
 Theorem C12_concat_framing_refuted :
@@ -158,6 +171,9 @@ Example C12_example_history :
   fst t_run = [parser_of "start: X" "X: ""x""" false; parser_of "start: X" "X: ""x""" true;
                parser_of "start: X" "X: ""x""" true; None; parser_of "start: X" "X: ""y""" false].
 Proof. vm_compute. reflexivity. Qed.
+
+Example C12_instance_prefix_fails : prefix_fails t_encU t_decU /\ prefix_fails enc_b dec_b.
+Proof. exact (conj t_decU_prefix dec_b_prefix). Qed.
 
 Example C12_example_history_inv :
   Inv bool t_sha bytes t_P t_encU enc_b t_build t_okenv (snd t_run).
